@@ -394,6 +394,8 @@ K('C08', 'P4.readback', 'teos', _w + 'c06_getapp_appointment', 'reading an accep
 PROPS['C06']['outside'] = PROPS['C06']['outside'].replace('; get_appointment / get_subscription_info handlers (their format!-built messages need real formatting under Kani: not run) are covered only through authenticate_user and has_subscription_expired, which they share', '; the text of the get_appointment message ("get appointment <locator>", built with format!, stubbed under Kani)')
 M('C04', 'P5.block_order', 'responder_block_order', 'Responder::filtered_block_connected (call level): refunding deletion only after check_confirmations, non-refunding deletion only after reorg handling / rebroadcast; exactly these two deletion sites; carrier height and tx index updated first, receipts cleared last')
 K('C01', 'P1.block_connected_breach', 'teos', _w + 'c01_p1_block_connected_breach', 'Watcher::filtered_block_connected for a block with the dispute of a stored appointment (+ an unrelated tx, + an untriggered appointment): cache learns the block, penalty submitted while the block is handled, tracker with exactly that dispute/penalty, height recorded')
+K('C01', 'P1.block_connected_already_in_chain', 'teos', _w + 'c01_p1_block_connected_already_in_chain', 'same block, the node answers the penalty with already-in-chain (-27): submitted once, no tracker, and the appointment is dropped (never left as watched), no refund')
+K('C01', 'P1.block_connected_rejected', 'teos', _w + 'c01_p1_block_connected_rejected', 'same block, the node rejects the penalty (-26): submitted once, no tracker, appointment dropped, no refund', 'thorough')
 K('C01', 'P1.block_connected_garbled', 'teos', _w + 'c01_p1_block_connected_garbled', 'same with a blob that does not decrypt: nothing sent, only that appointment dropped, no refund', 'thorough')
 PROPS['C04']['assumptions'] = PROPS['C04']['assumptions'] + M_ASSUME[:2]
 PROPS['C01']['outside'] = 'the six-block window is C19; real decryption (ideal-cipher stub); multi-breach blocks beyond one locator with two appointments; SQL; get_breaches with more than 2 transactions per block'
